@@ -252,6 +252,53 @@ class SeriesValueSet:
         body = z_and(s.present(w), z_not(s.col.isnull(w)), to_z3(s.col.val(w)) == to_z3(item))
         return z3.Exists(list(w), to_z3(body))
 
+    def hv_sorted(self, ex, pc):
+        return copy.deepcopy(sorted_unique(ex, self.s).lst)  # the caller may mutate its list (pop, append)
+
+    def hv_call_method(self, ex, attr, args, kwargs, pc, env):
+        if attr == "tolist" and not args:
+            return copy.deepcopy(enumeration_of_values(ex, self.s, "first_appearance").lst)
+        return NotImplemented
+
+
+class ValueEnumeration:
+    """A duplicate-free list of exactly the non-null values a series takes on its present rows; `ordered`: ascending."""
+
+    def __init__(self, lst, pos, wit):
+        self.lst, self.pos, self.wit = lst, pos, wit
+
+
+def enumeration_of_values(ex, s: "SymSeries", order: str) -> ValueEnumeration:
+    """ASSUMED contract of Series.unique() (+ sorted()): a functional of the series - the same series gives the same list."""
+    cache = ex.__dict__.setdefault("_value_enumerations", {})
+    key = (order, s.uni.name, id(s.col), id(s.present))
+    if key in cache:
+        return cache[key][0]
+    _assume("pandas Series.unique(): every non-missing value of the series exactly once" + ("; sorted(): ascending" if order == "sorted" else "; .tolist(): in some order (order of first appearance)"))
+    sort = to_z3(s.col.val(s.uni.skolem("srt"))).sort()
+    tag = f"{order}_{next(_uid)}"
+    lst = pyvc.SymList(sort, f"values_{tag}")
+    n = lst.length
+    i, j = z3.Ints(f"vi_{tag} vj_{tag}")
+    pos = z3.Function(f"position_{tag}", sort, z3.IntSort())
+    wit = [z3.Function(f"witness_{tag}_{k}", z3.IntSort(), z3.IntSort()) for k in range(s.uni.arity)]
+    w = tuple(f(i) for f in wit)
+    rel = (lst.at(i) < lst.at(j)) if order == "sorted" else (lst.at(i) != lst.at(j))
+    ex.facts.append(n >= 0)
+    ex.facts.append(z3.ForAll([i, j], z3.Implies(z3.And(i >= 0, i < j, j < n), rel), patterns=[z3.MultiPattern(lst.at(i), lst.at(j))]))
+    ex.facts.append(z3.ForAll([i], z3.Implies(z3.And(i >= 0, i < n), to_z3(z_and(s.present(w), z_not(s.col.isnull(w)), to_z3(s.col.val(w)) == lst.at(i)))), patterns=[lst.at(i)]))
+    r = s.uni.skolem(f"er_{tag}")
+    v = to_z3(s.col.val(r))
+    body = z3.Implies(to_z3(z_and(s.present(r), z_not(s.col.isnull(r)))), z3.And(pos(v) >= 0, pos(v) < n, lst.at(pos(v)) == v))
+    ex.facts.append(z3.ForAll(list(r), body, patterns=[pos(v)] if not z3.is_const(v) else []))
+    res = ValueEnumeration(lst, pos, wit)
+    cache[key] = (res, s)  # keeps the series alive: ids stay unique
+    return res
+
+
+def sorted_unique(ex, s: "SymSeries") -> ValueEnumeration:
+    return enumeration_of_values(ex, s, "sorted")
+
 
 class DType:
     def __init__(self, tag):
